@@ -83,6 +83,12 @@ def partition(rng, data: bytes):
     return out
 
 
+def thread_jobs(rng, thorough):
+    from .. import gen
+    T = core.tables()
+    return [(gen.conn_chunked(rng, T), rng.randrange(10 ** 9), rng.choice([0, 0, 3])) for _ in range(8000 if thorough else 200)]
+
+
 def run(ctx: core.Ctx):
     ctx.lean_stage()
     T = core.tables()
@@ -202,11 +208,16 @@ def run(ctx: core.Ctx):
         ctx.correspondence_broken("framing/parse model vs YncaProtocol.data_received / handle_line", {"count": len(disagreements), "first": disagreements[0]})
     ctx.assumptions += ["bytes.decode('utf-8','replace') on invalid input is not modelled (such packets are compared by count only)",
                         "CPython's re engine implements the documented semantics of the pattern"]
+    from .. import b2check
+    b2check.run_b2(ctx, thread_jobs, ["C02t", "C10"], label="chunked arrival through the real reader thread", accept=False)
     return ctx.finish()
 
 
 def replay(ctx, path):
     rp = json.load(open(path))["replay"]
+    if rp.get("path") == "b2":
+        from .. import b2check
+        return b2check.replay_b2(rp, ["C02t", "C10"])
     from ynca.connection import YncaProtocol
     p = YncaProtocol(lambda *a: print("impl callback:", a), None, 0)
     if "line" in rp:
